@@ -140,6 +140,7 @@ def plan_c02(ctx):
         nv = rng.randint(1, 4)
         add(ctx, [{"id": "C02-r-s%d" % i, "kind": "store", "vars": list(range(1, nv + 1)), "k": 0,
                    "ops": gen.store_ops(rng, nv, rng.randint(2, 7), rng.randint(1, 3))}])
+    with_engine_records(ctx, every=T(ctx, 2, 8))
 
 
 def plan_c03(ctx):
@@ -161,6 +162,7 @@ def plan_c03(ctx):
         rng.shuffle(body)
         add(ctx, [{"id": "C03-c-%d" % i, "kind": "program", "mode": "query", "qvars": list(range(1, nq + 1)),
                    "body": [["fresh", hidden + [20, 21], body]]}])
+    with_engine_records(ctx, every=T(ctx, 2, 8))
 
 
 def plan_c22(ctx):
@@ -288,7 +290,7 @@ def query(ctx, cid, nq, body, **kw):
 
 ENGINE_TAGS = {"eq", "neq", "conde", "cond", "fresh", "dfs", "conj", "rawconj", "rawdisj", "disj", "succeed", "fail",
                "leaf", "conda", "condu", "onceo", "call", "call:member", "call:member1", "call:append", "call:rember",
-               "call:cons", "call:empty",
+               "call:cons", "call:empty", "for", "project", "show", "isnum", "isground",
                # term constructors
                "var", "num", "sym", "list", "ilist", "cons", "nil", "cmp", "any"}
 
@@ -300,7 +302,7 @@ def with_engine_records(ctx, every=1):
     Diagnostic only (`engine_shape_mismatch` is never a verdict)."""
     n = 0
     for c in ctx["cases"]:
-        if c.get("mode") == "query" and c.get("backend") != "surface" and not c.get("defs") and "take" not in c \
+        if c.get("mode") == "query" and c.get("backend") != "surface" and not c.get("defs") \
                 and "sched" not in c and vlib.goal_tags({"b": c["body"]}) <= ENGINE_TAGS:
             n += 1
             if n % every == 0:
@@ -412,6 +414,7 @@ def plan_c08(ctx):
         op = rng.choice(["condu", "onceo"])
         cl = [head] + ([] if op == "onceo" else gen.search_program(rng, 1, rng.randint(0, 1), lib=False))
         add(ctx, [query(ctx, "C08-inf-%d" % i, 1, [[op, [cl]]], fuel=8)])
+    with_engine_records(ctx, every=1)
 
 
 ISO_GOALS = None
@@ -447,6 +450,7 @@ def plan_c10(ctx):
                   query(ctx, g + "-ba", nq, prefix + [["conde", [B, A]]] + post)])
     plan_c10_fd(ctx)
     plan_c10_dom(ctx)
+    with_engine_records(ctx, every=2)
 
 
 def plan_c10_fd(ctx):
@@ -578,6 +582,7 @@ def plan_c11(ctx):
                 take = rng.randint(2, 6)
             body = pre + [["project", [1], body_of()]]
         add(ctx, [query(ctx, "C11-r-%d" % i, 2, body, take=take, fuel=10)])
+    with_engine_records(ctx, every=1)
 
 
 def plan_c12(ctx):
@@ -604,6 +609,7 @@ def plan_c12(ctx):
         g = "C12-g%d" % i
         add(ctx, [query(ctx, g + "-for", nq, pre + [["for", x, coll, bodies]], group=g),
                   query(ctx, g + "-conj", nq, pre + explicit, group=g, gcheck="same_bag")])
+    with_engine_records(ctx, every=1)
 
 
 def subst(x, vid, t):
